@@ -223,6 +223,7 @@ theorem M_step (g : ConnC03.Good jid U NR c) (hs : HS none c) (m : M c) (op : Op
   | setSched l d => exact m
   | tick ms => exact m
   | setSmCallback => exact m
+  | setSendOnConnect on => exact m
   | setFlags f => exact M_same (Same_setFlags (Same.refl c)) m
   | usend it => exact M_same (Same_xmppSend (Same.refl c)) m
   | uraw it => exact M_same (Same_xmppSendRaw (Same.refl c)) m
